@@ -58,6 +58,44 @@ theorem selectIdx_append {α : Type} (n : Nat) (l1 l2 : List α) (c : α → Boo
   unfold selectIdx
   rw [enumFrom_append, List.filterMap_append]
 
+/-- one step per attribute of a class, plus one per class -/
+def attrSum (cs : List Cls) : Nat := (cs.map (fun c => c.attrs.length + 1)).sum
+
+/-- the depth the guards about reads speak of: the number of (class, attribute) pairs of the schema plus the number
+    of classes (every intermediate state of the API route gives a read more fuel than this: `attrSum_lt_fuelOf`) -/
+def readBound (ss : List Stmt) : Nat := attrSum (popClasses ss)
+
+theorem attrSum_map_rows (cs : List Cls) (f : Cls → Cls) (h : ∀ c, (f c).attrs = c.attrs) :
+    attrSum (cs.map f) = attrSum cs := by
+  unfold attrSum
+  rw [List.map_map]
+  congr 1
+  apply List.map_congr_left
+  intro c _
+  simp [h c]
+
+theorem attrSum_addRow (cs : List Cls) (k : String) (r : Row) : attrSum (addRow cs k r) = attrSum cs := by
+  unfold addRow
+  apply attrSum_map_rows
+  intro c; by_cases h : c.kind = k <;> simp [h]
+
+theorem attrSum_append (l1 l2 : List Cls) : attrSum (l1 ++ l2) = attrSum l1 + attrSum l2 := by
+  simp [attrSum]
+
+theorem attrSum_lt_fuelOf (m : Model) : attrSum m.classes + 1 ≤ fuelOf m := by
+  unfold fuelOf attrSum
+  have : ∀ cs : List Cls, (cs.map (fun c => c.attrs.length + 1)).sum ≤
+      (cs.map (fun c => (c.rows.length + 1) * (c.attrs.length + 1))).sum := by
+    intro cs
+    induction cs with
+    | nil => simp
+    | cons c cs ih =>
+      simp only [List.map_cons, List.sum_cons]
+      have : c.attrs.length + 1 ≤ (c.rows.length + 1) * (c.attrs.length + 1) := Nat.le_mul_of_pos_left _ (by omega)
+      omega
+  have := this m.classes
+  omega
+
 /-- the guards of `api_equiv` -/
 structure ApiGuards (ss : List Stmt) (order : List (String × List Val)) : Prop where
   /-- the statements are the schema; the rows come through `new` -/
@@ -66,15 +104,17 @@ structure ApiGuards (ss : List Stmt) (order : List (String × List Val)) : Prop 
   /-- key lists without repeats, of equal non-zero length; no reflexive association -/
   keys : ∀ a ∈ popAssocs ss, KeysOk a ∧ a.srcKeys.length = a.tgtKeys.length ∧ a.srcKeys ≠ [] ∧ a.srcKind ≠ a.tgtKind
   /-- chained keys (an identifying attribute that is itself referential in its class is read through the chain of
-      referential properties): on the loaded metamodel every attribute read ends within as many steps as there are
-      classes (no cyclic chain of key attributes) ... -/
+      referential properties): on the loaded metamodel every attribute read ends within `readBound ss` steps — the
+      number of (class, attribute) pairs plus the number of classes; a SUFFICIENT condition for "no cyclic chain of
+      key attributes" that depends on the schema only (`fuelOf_sufficient`: a read that ends at all ends within
+      `fuelOf`, the bound the model runs with) ... -/
   readsTerminate : ∀ k i x, i < (rawRows ss order k).length →
-    (readAttr (loaded ss order) (popClasses ss).length k i x).isSome = true
+    (readAttr (loaded ss order) (readBound ss) k i x).isSome = true
   /-- ... and the identifying values of a referred row that some row refers to can be read back (the referred row's
       own references are not dangling) -/
   resolved : ∀ a ∈ popAssocs ss, ∀ (i j : Nat) s t, (rawRows ss order a.srcKind)[i]? = some s →
     (rawRows ss order a.tgtKind)[j]? = some t → matchesB a s t = true →
-    ∀ tk ∈ a.tgtKeys, readAttr (loaded ss order) (popClasses ss).length a.tgtKind j tk = some (t.get tk)
+    ∀ tk ∈ a.tgtKeys, readAttr (loaded ss order) (readBound ss) a.tgtKind j tk = some (t.get tk)
   /-- referential attributes are declared attributes of the referring class -/
   srcDeclared : ∀ a ∈ popAssocs ss, ∀ k ∈ a.srcKeys, k ∈ (attrsOf ss a.srcKind).map (·.1)
   /-- `_find_link(referred, referring, rel, link.phrase)` answers with the association itself, unswapped -/
@@ -98,6 +138,7 @@ structure ApiInv (ss : List Stmt) (pre : List (String × List Val)) (m : Model) 
   assocs : m.assocs = (popAssocs ss).map (fun a =>
     (a, nestedJoin a (rawRows ss pre a.srcKind) (rawRows ss pre a.tgtKind)))
   ncls : m.classes.length = (popClasses ss).length
+  asum : attrSum m.classes = readBound ss
 
 theorem map_fst_assocs (ss : List Stmt) (f : AssocStmt → Links) :
     ((popAssocs ss).map (fun a => (a, f a))).map (·.1) = popAssocs ss := by
@@ -646,10 +687,10 @@ theorem reads_oracle (a : AssocStmt) (ha : a ∈ popAssocs ss) (hk : a.srcKind =
     rowMatches m' (fuelOf (withRow m o.1 r)) a.tgtKind j (kwargsOf a (rawRow ss o)) = some (matchesB a (rawRow ss o) t) := by
   have hc := consBelow_of_agrees ss order pre suf o g horder m inv r m' hag
   have hjlt : j < (rawRows ss pre a.tgtKind).length := (List.getElem?_eq_some_iff.mp htj).1
-  have hD : (popClasses ss).length ≤ fuelOf (withRow m o.1 r) := by
-    have := fuelOf_ge (withRow m o.1 r)
-    have hl : (withRow m o.1 r).classes.length = (popClasses ss).length := by
-      simp only [withRow, addRow, List.length_map]; exact inv.ncls
+  have hD : readBound ss ≤ fuelOf (withRow m o.1 r) := by
+    have := attrSum_lt_fuelOf (withRow m o.1 r)
+    have hl : attrSum (withRow m o.1 r).classes = readBound ss := by
+      simp only [withRow]; rw [attrSum_addRow]; exact inv.asum
     omega
   have htfin : (rawRows ss order a.tgtKind)[j]? = some t := by
     rw [tgt_prefix ss order pre suf o g horder a, List.getElem?_append_left hjlt]
@@ -733,10 +774,10 @@ theorem srcSkip_oracle (a : AssocStmt) (ha : a ∈ popAssocs ss) (hk : a.tgtKind
           have := List.mem_range.mp hj
           rw [hrowsEq] at this
           simpa using this
-        have hD : (popClasses ss).length ≤ fuelOf m' := by
-          have := fuelOf_ge m'
-          have hl : m'.classes.length = (popClasses ss).length := by
-            rw [hag.classes]; simp only [withRow, addRow, List.length_map]; exact inv.ncls
+        have hD : readBound ss ≤ fuelOf m' := by
+          have := attrSum_lt_fuelOf m'
+          have hl : attrSum m'.classes = readBound ss := by
+            rw [hag.classes]; simp only [withRow]; rw [attrSum_addRow]; exact inv.asum
           omega
         have hsfin : (rawRows ss order a.srcKind)[j]? = some (rawRows ss pre a.srcKind)[j] := by
           have e : rawRows ss order a.srcKind = rawRows ss pre a.srcKind ++ rawRows ss (o :: suf) a.srcKind := by
@@ -892,7 +933,7 @@ theorem apiNew_step (ss : List Stmt) (order pre suf : List (String × List Val))
         omega
   refine ⟨_, apiNew_eq m o.1 o.2 c hc (rawRows ss pre) hready, ?_⟩
   rw [hall, hs]
-  refine ⟨?_, ?_, ?_, by simp only [addRow, List.length_map]; exact inv.ncls⟩
+  refine ⟨?_, ?_, ?_, by simp only [addRow, List.length_map]; exact inv.ncls, by rw [attrSum_addRow]; exact inv.asum⟩
   · intro k
     simp only [findCls_addRow]
     rw [← inv.attrs k]
@@ -961,8 +1002,27 @@ theorem length_popUniques (ss : List Stmt) (cs : List Cls) : (popUniques ss cs).
     | assoc _ => rfl
     | insert _ _ _ => rfl
 
+theorem attrSum_popUniques (ss : List Stmt) (cs : List Cls) : attrSum (popUniques ss cs) = attrSum cs := by
+  unfold popUniques
+  induction ss generalizing cs with
+  | nil => rfl
+  | cons s ss ih =>
+    simp only [List.foldl_cons]
+    rw [ih]
+    cases s with
+    | uniq k n as =>
+      simp only [defineUnique]
+      by_cases h : as.isEmpty
+      · simp [h]
+      · simp only [h, Bool.false_eq_true, if_false]
+        apply attrSum_map_rows
+        intro c; by_cases hc : c.kind = k <;> simp [hc]
+    | cls _ _ => rfl
+    | assoc _ => rfl
+    | insert _ _ _ => rfl
+
 theorem apiInv_init (ss : List Stmt) : ApiInv ss [] (schemaModel ss) := by
-  refine ⟨?_, ?_, ?_, length_popUniques ss _⟩
+  refine ⟨?_, ?_, ?_, length_popUniques ss _, attrSum_popUniques ss _⟩
   · intro k
     simp only [schemaModel, findCls_popUniques]
     cases findCls (popClasses ss) k <;> simp [applyUniqs]
@@ -1010,7 +1070,7 @@ theorem kind_declared_of_accepted (ss : List Stmt) (hacc : accepted ss = true) (
 
 /-- the guards `readsTerminate` and `resolved` for a schema without chained keys (every identifying attribute used
     as a key is stored, none is referential in its own class): reads end after at most two steps -/
-theorem reads_of_noChain (ss : List Stmt) (order : List (String × List Val))
+theorem reads_of_noChain_len (ss : List Stmt) (order : List (String × List Val))
     (hschema : ∀ s ∈ ss, ∀ k ns vs, s ≠ .insert k ns vs) (hacc : accepted ss = true)
     (hkeys : ∀ a ∈ popAssocs ss, KeysOk a ∧ a.srcKeys.length = a.tgtKeys.length ∧ a.srcKeys ≠ [] ∧ a.srcKind ≠ a.tgtKind)
     (hdecl : ∀ o ∈ order, (findCls (popClasses ss) o.1).isSome = true ∧ o.2.length = (attrsOf ss o.1).length)
@@ -1118,5 +1178,29 @@ theorem reads_of_noChain (ss : List Stmt) (order : List (String × List Val))
         rw [List.length_eq_zero_iff] at hD; rw [hD]; rfl
       rw [this] at hkm; cases hkm
     | succ d => exact hstored d a ha j t ht tk htk
+
+theorem length_le_readBound (ss : List Stmt) : (popClasses ss).length ≤ readBound ss := by
+  unfold readBound attrSum
+  have := sum_ge_length ((popClasses ss).map (fun c => c.attrs.length + 1))
+    (by intro x hx; obtain ⟨c, _, rfl⟩ := List.mem_map.mp hx; omega)
+  simpa using this
+
+theorem reads_of_noChain (ss : List Stmt) (order : List (String × List Val))
+    (hschema : ∀ s ∈ ss, ∀ k ns vs, s ≠ .insert k ns vs) (hacc : accepted ss = true)
+    (hkeys : ∀ a ∈ popAssocs ss, KeysOk a ∧ a.srcKeys.length = a.tgtKeys.length ∧ a.srcKeys ≠ [] ∧ a.srcKind ≠ a.tgtKind)
+    (hdecl : ∀ o ∈ order, (findCls (popClasses ss) o.1).isSome = true ∧ o.2.length = (attrsOf ss o.1).length)
+    (hnc : ∀ a ∈ popAssocs ss, ∀ t ∈ a.tgtKeys, t ∉ referential (popAssocs ss) a.tgtKind) :
+    (∀ k i x, i < (rawRows ss order k).length →
+      (readAttr (loaded ss order) (readBound ss) k i x).isSome = true) ∧
+    (∀ a ∈ popAssocs ss, ∀ (i j : Nat) s t, (rawRows ss order a.srcKind)[i]? = some s →
+      (rawRows ss order a.tgtKind)[j]? = some t → matchesB a s t = true →
+      ∀ tk ∈ a.tgtKeys, readAttr (loaded ss order) (readBound ss) a.tgtKind j tk = some (t.get tk)) := by
+  obtain ⟨h1, h2⟩ := reads_of_noChain_len ss order hschema hacc hkeys hdecl hnc
+  constructor
+  · intro k i x hi
+    obtain ⟨v, hv⟩ := Option.isSome_iff_exists.mp (h1 k i x hi)
+    rw [readAttr_mono _ (length_le_readBound ss) k i x v hv]; rfl
+  · intro a ha i j s t hs ht hm tk htk
+    exact readAttr_mono _ (length_le_readBound ss) _ _ _ _ (h2 a ha i j s t hs ht hm tk htk)
 
 end Pyx.Load
